@@ -10,10 +10,10 @@
    External behaviour enters as explicit arguments: which external command fails, where the
    process dies, health outcomes, filesystem obstacles that make one SwapArtifact fail, and
    the admission facts about a tarball (signature valid, digests match, members safe, ...).
-   [repaired] is what /repo HEAD does (all four repairs are committed: 88f69f7, f4d379f, b6afef3, ca3a3f9).
-   The four booleans of [variant] exist only so that the historical behaviour can still be stated
-   ([pre_b6afef3], [pre_88f69f7]: `_refuted` witnesses in Properties.v); the correspondence check compares
-   /repo with [repaired] alone, so a regression to any of the old behaviours is a VIOLATION. *)
+   [repaired] = /repo with the four committed repairs (88f69f7, f4d379f, b6afef3, ca3a3f9) plus the one still
+   proposed (v_same_fix); [leaves_residue] = /repo at ca3a3f9, the only other variant in the correspondence (recorded
+   finding forceretry-subset-leaves-residue).  [pre_b6afef3], [pre_88f69f7] are historical (`_refuted` witnesses only);
+   a regression to them is a VIOLATION. *)
 From OV Require Import Common.Base.
 
 Definition path := N.
@@ -44,7 +44,8 @@ Record opts := { o_expect : option ver; o_force : bool }.
 
 (* labels of fault / crash points; A-flow commands 1..8, R-flow commands 11..18,
    Reporter.Stage n of 14 = 20+n, Stage n of 5 = 40+n, warnings 51..53,
-   35 = between WriteCurrentManifest and the "completed" phase write *)
+   35 = between WriteCurrentManifest and the "completed" phase write; fail label 36 = saveCurrentManifest
+   (after Snapshot) returns an error — the same disk state a death between the two would leave *)
 Record faults := {
   f_fail : list N;
   f_crash : option N;
@@ -55,8 +56,10 @@ Record faults := {
 
 (* v_mode_fix (88f69f7): rollback restores setuid/setgid/sticky; v_curm_fix (f4d379f): rollback restores
    current-manifest.yaml; v_keep_fix (b6afef3): a ForceRetry apply over an interrupted upgrade keeps that upgrade's
-   snapshot; v_stale_fix (ca3a3f9): Rollback refuses a journal whose snapshot never completed *)
-Record variant := { v_mode_fix : bool; v_curm_fix : bool; v_keep_fix : bool; v_stale_fix : bool }.
+   snapshot; v_stale_fix (ca3a3f9): Rollback refuses a journal whose snapshot never completed;
+   v_same_fix (proposed, fixes/C18_force_retry_same_artifact_set.patch): such a ForceRetry must install EVERY path
+   the kept snapshot covers, otherwise paths already replaced by the interrupted upgrade keep its bytes *)
+Record variant := { v_mode_fix : bool; v_curm_fix : bool; v_keep_fix : bool; v_stale_fix : bool; v_same_fix : bool }.
 
 (* "no current-manifest.yaml": version discovery then asks the installed binary, which the harness
    answers with the version string of this id *)
@@ -185,7 +188,7 @@ Definition do_snapshot (v : variant) (w : world) (from : ver) (arts : list artif
                   s_curm := if v_curm_fix v then curm_of (cur w) else s_curm d0 |})), true)
   end.
 
-(* Snapshot() returned, saveCurrentManifest has not run yet (crash label 36) *)
+(* Snapshot() returned, saveCurrentManifest failed or never ran (fail label 36) *)
 Definition do_snapshot_nocurm (v : variant) (w : world) (from : ver) (arts : list artifact) : world :=
   let d0 := match snaps w from with Some d => d | None => empty_snap end in
   let '(b, es) := snap_loop v (fs w) (s_bak d0) arts in
@@ -357,6 +360,9 @@ Definition resume (w : world) : bool :=
 Definition covered (es : list entry) (arts : list artifact) : bool :=
   forallb (fun a => existsb (fun e => N.eqb (e_path e) (a_path a)) es) arts.
 
+Definition covered_rev (es : list entry) (arts : list artifact) : bool :=
+  forallb (fun e => existsb (fun a => N.eqb (a_path a) (e_path e)) arts) es.
+
 (* stage 6 onwards; w2 carries phase snapshot_done; [from] = key of the snapshot directory *)
 Definition after_snapshot (v : variant) (T : tarball) (F : faults) (from : ver) (w2 : world) : world * res :=
   let arts := t_arts T in
@@ -396,7 +402,7 @@ Definition fresh_flow (v : variant) (T : tarball) (F : faults) (w : world) : wor
   if crash_at F 25 then (w0, RCrash) else
   let '(w1, ok) := do_snapshot v w0 from arts in
   if negb ok then (w1, RErr) else
-  if crash_at F 36 && reset then (do_snapshot_nocurm v w0 from arts, RCrash) else
+  if fails F 36 && reset then (do_snapshot_nocurm v w0 from arts, RErr) else    (* saveCurrentManifest fails *)
   let w2 := set_phase (if reset then set_gbase w1 (Some (true, base, cur w)) else w1) PSnapshotDone in
   after_snapshot v T F from w2.
 
@@ -416,7 +422,9 @@ Definition apply_flow (v : variant) (T : tarball) (F : faults) (w : world) : wor
       match snaps w (j_from j) with
       | Some d =>
         match s_meta d with
-        | Some (nv, es) => if covered es (t_arts T) then keep_flow v T F w j d nv es else (w, RErr)
+        | Some (nv, es) =>
+            if covered es (t_arts T) && (negb (v_same_fix v) || covered_rev es (t_arts T))
+            then keep_flow v T F w j d nv es else (w, RErr)
         | None => fresh_flow v T F w
         end
       | None => fresh_flow v T F w
@@ -451,8 +459,15 @@ Definition art_installed (w : world) (a : artifact) : bool :=
   | None => false
   end.
 
+(* after a reported upgrade every artifact of the tarball is installed AND every baseline path (every path an
+   attempt of this upgrade episode may have replaced) is one of them: no path is left at another version *)
 Definition mon_new (w : world) (arts : list artifact) : mon :=
-  if forallb (art_installed w) arts then MonOk else MonMixed.
+  if forallb (art_installed w) arts &&
+     match g_base w with
+     | Some (_, l, _) => forallb (fun pf => existsb (N.eqb (fst pf)) (map a_path arts)) l
+     | None => true
+     end
+  then MonOk else MonMixed.
 
 Definition mon_restored (w : world) : mon :=
   match g_base w with
@@ -550,12 +565,16 @@ Definition init_world (c : ver) (f : path -> option file) : world :=
   {| fs := f; cur := c; jr := None; snaps := fun _ => None; obst := fun _ => None; g_base := None; g_inst := c;
      g_fs0 := f; g_clean := true |}.
 
-Definition repaired : variant := {| v_mode_fix := true; v_curm_fix := true; v_keep_fix := true; v_stale_fix := true |}.
+Definition repaired : variant :=
+  {| v_mode_fix := true; v_curm_fix := true; v_keep_fix := true; v_stale_fix := true; v_same_fix := true |}.
+(* /repo at ca3a3f9 (the four committed repairs, not yet the same-artifact-set check) *)
+Definition leaves_residue : variant :=
+  {| v_mode_fix := true; v_curm_fix := true; v_keep_fix := true; v_stale_fix := true; v_same_fix := false |}.
 (* historical: /repo between f4d379f and b6afef3 (mode and current-manifest fixes in, ForceRetry still
    re-snapshots, Rollback still accepts a journal at "started") *)
-Definition pre_b6afef3 : variant := {| v_mode_fix := true; v_curm_fix := true; v_keep_fix := false; v_stale_fix := false |}.
+Definition pre_b6afef3 : variant := {| v_mode_fix := true; v_curm_fix := true; v_keep_fix := false; v_stale_fix := false; v_same_fix := false |}.
 (* historical: /repo before 88f69f7 (none of the four repairs) *)
-Definition pre_88f69f7 : variant := {| v_mode_fix := false; v_curm_fix := false; v_keep_fix := false; v_stale_fix := false |}.
+Definition pre_88f69f7 : variant := {| v_mode_fix := false; v_curm_fix := false; v_keep_fix := false; v_stale_fix := false; v_same_fix := false |}.
 
 (* ---- safeTarEntryPath: names are byte strings, '/' = 47, '.' = 46, '\' = 92 ---- *)
 Definition bstr := list N.
